@@ -194,7 +194,7 @@ TFinal ==
   /\ LET dr == IF drift # "same" THEN drift
                ELSE IF r.raised # "" \/ r.malformed # "" THEN "na"
                ELSE IF lastR # LoopOutput(r) THEN "differs:last_logged_state_is_not_the_output"
-               ELSE IF r.expect_eff >= 0 /\ (r.expect_eff # r.eff_out \/ r.expect_R # LoopOutput(r))
+               ELSE IF r.expect_eff >= 0 /\ ((r.eff_out >= 0 /\ r.expect_eff # r.eff_out) \/ r.expect_R # LoopOutput(r))
                     THEN "differs:model_predicted_other_result"
                ELSE "same"
      IN Finish(r, Final(r), dr)
